@@ -363,17 +363,26 @@ impl Watcher {
         }
 
         let uuid = UUID::new(locator, user_id);
-        let dbm = self.dbm.lock().unwrap();
-        dbm.load_tracker(uuid)
-            .map(AppointmentInfo::Tracker)
-            .or_else(|| {
-                dbm.load_appointment(uuid)
-                    .map(|ext_app| AppointmentInfo::Appointment(ext_app.inner))
-            })
-            .ok_or_else(|| {
+        let found = {
+            let dbm = self.dbm.lock().unwrap();
+            dbm.load_tracker(uuid)
+                .map(AppointmentInfo::Tracker)
+                .or_else(|| {
+                    dbm.load_appointment(uuid)
+                        .map(|ext_app| AppointmentInfo::Appointment(ext_app.inner))
+                })
+        };
+
+        found.ok_or_else(|| {
+            // The user, and all their data with them, may have been removed (outdated subscription) since the subscription
+            // was checked. That is not an appointment that was never there: answer as if the request had come after the removal.
+            if self.gatekeeper.has_subscription_expired(user_id).is_err() {
+                GetAppointmentFailure::AuthenticationFailure
+            } else {
                 log::info!("Cannot find {locator}");
                 GetAppointmentFailure::NotFound
-            })
+            }
+        })
     }
 
     /// Gets a map of breaches provided a map between locators and transactions.
